@@ -183,39 +183,11 @@ def r3_hand_back(ctx) -> None:
         else:
             r.violation("C17.R3", pi.qual, "self.check_exclusivity()", "include and exclude given together are no longer rejected", pi.loc)
     rp = prog.func(T + ".SigmaString.replace_placeholders")
-    comps = [n for n in walk_no_nested(rp.node) if isinstance(n, ast.ListComp) and len(n.generators) == 2]
-    ok_ = False
-    for c in comps:
-        g0, g1 = c.generators
-        if "callback(" in unparse(g0.iter) and "suffix.replace_placeholders(callback)" in unparse(g1.iter) and unparse(c.elt).replace(" ", "") == "prefix+replacement+result_suffix" \
-                and not g0.ifs and not g1.ifs:
-            ok_ = True
-    if ok_:
-        r.ok("C17.R3", rp.qual, "[prefix + replacement + suffix_result for replacement in callback(p) for suffix_result in suffix.replace_placeholders(callback)]", rp.loc)
-    else:
-        r.violation("C17.R3", rp.qual, "cross-product comprehension", "the expansion is not the full cross product with the first placeholder outermost and the recursion over the suffix", rp.loc)
-    loops = [n for n in walk_no_nested(rp.node) if isinstance(n, ast.For) and "range(len(s))" in unparse(n.iter)]
-    if loops and any(isinstance(x, ast.Return) for x in ast.walk(loops[0])):
-        r.ok("C17.R3", rp.qual, "first placeholder (lowest index) is expanded first", rp.loc)
-    else:
-        r.violation("C17.R3", rp.qual, "for i in range(len(s))", "placeholders are not expanded from left to right", rp.loc)
+    _r3_string_expansion(ctx, rp)
     rr = prog.func(T + ".SigmaRegularExpression.replace_placeholders")
     _r3_regex_expansion(ctx, rr)
     ip = prog.func(T + ".SigmaString.insert_placeholders")
-    bad = [n for n in walk_no_nested(ip.node) if isinstance(n, ast.Attribute) and n.attr == "original"]
-    if bad:
-        r.violation("C17.R3", ip.qual, short(prog.enclosing_stmt(bad[0]), 100), "placeholder insertion consults self.original, which is empty/stale for strings rebuilt by earlier modifiers (contains|expand …): %name% stays literal text", f"{ip.module.relpath}:{bad[0].lineno}")
-    elif any(isinstance(n, ast.For) and unparse(n.iter) == "self.s" for n in walk_no_nested(ip.node)):
-        rets = [x for x in walk_no_nested(ip.node) if isinstance(x, ast.Return)]
-        cfg = cfg_of(ip)
-        lp = [n for n in walk_no_nested(ip.node) if isinstance(n, ast.For) and unparse(n.iter) == "self.s"][0]
-        ln = [n.id for n in cfg.nodes if n.kind == "for" and n.ast is lp]
-        if all(cfg.must_pass(nid, ln) for x in rets for nid in cfg.nodes_of(x)):
-            r.ok("C17.R3", ip.qual, "placeholders are inserted by walking the parts; no early exit", ip.loc)
-        else:
-            r.violation("C17.R3", ip.qual, "early return", "insert_placeholders can return without walking the parts", ip.loc)
-    else:
-        r.violation("C17.R3", ip.qual, "for part in self.s", "insert_placeholders no longer walks the parts", ip.loc)
+    _r3_insertion(ctx, ip)
     r.floor("C17.R3", 8)
 
 
@@ -334,6 +306,132 @@ def r8_filters_honoured(ctx) -> None:
                     else:
                         r.violation("C17.R8", f.qual, short(c, 80), "the test considers every placeholder of the value, also those excluded from this item: with include: [a] a value 'foo%b%' makes query_expression_placeholders abort the conversion although %b% is resolved by a later item", loc)
     r.floor("C17.R8", 2)
+
+
+def _string_standin(ctx):
+    """A SigmaString stand-in for interpreting its methods (sa.tabulate): parts list `s`, concatenation, placeholder test;
+    every other method (helpers a refactoring introduces, the recursion) resolves from the source of sigma.types.SigmaString."""
+    import re as _re
+    from ..tabulate import _class_attr
+    prog = ctx.prog
+
+    class Placeholder:
+        def __init__(self, name): self.name = name
+        def __repr__(self): return f"%{self.name}%"
+
+    class _SC:
+        def __init__(self, n): self.n = n
+        def __repr__(self): return f"<{self.n}>"
+
+    sc = type("SpecialChars", (), {"WILDCARD_MULTI": _SC("*"), "WILDCARD_SINGLE": _SC("?")})
+    env = {"re": _re, "Placeholder": Placeholder, "SpecialChars": sc, "cast": lambda t, v: v}
+    kw = {"max_steps": 20000}
+
+    class Str:
+        def __init__(self, parts=()):
+            self.s = list(parts)
+            self.original = "stale%zzz%"
+
+        def contains_placeholder(self, *a, **k):
+            return any(isinstance(x, Placeholder) for x in self.s)
+
+        def __add__(self, o):
+            n = type(self)()
+            n.s = self.s + (list(o.s) if isinstance(o, Str) else [o])
+            return n
+
+        def __radd__(self, o):
+            n = type(self)()
+            n.s = [o] + self.s
+            return n
+
+        def __getattr__(self, name):
+            if name.startswith("__"):
+                raise AttributeError(name)
+            return _class_attr(prog, T + ".SigmaString", env, kw, name, type(self), self)
+
+    class CasedStr(Str):
+        pass
+
+    env["SigmaString"] = Str
+    return Str, CasedStr, Placeholder, sc, env
+
+
+def _r3_string_expansion(ctx, rp: FuncInfo) -> None:
+    """SigmaString.replace_placeholders interpreted on a<p1>b<p2>c with two replacements for p1 and three for p2 (one of
+    them p2 itself, handed back): the result is the full cross product, first placeholder outermost, parts in place, the
+    string class kept; a string without placeholders comes back alone."""
+    from ..tabulate import Raised
+    r = ctx.r
+    Str, CasedStr, Placeholder, sc, env = _string_standin(ctx)
+    p1, p2 = Placeholder("p1"), Placeholder("p2")
+
+    def cb(p):
+        return iter(["1", "2"]) if p is p1 else iter(["x", sc.WILDCARD_MULTI, p])
+    src = CasedStr(["a", p1, "b", p2, "c"])
+    try:
+        out = src.replace_placeholders(cb)
+        plain = Str(["abc", sc.WILDCARD_MULTI])
+        alone = plain.replace_placeholders(cb)
+    except Raised as ex:
+        r.violation("C17.R3", rp.qual, "replace_placeholders on a%p1%b%p2%c", f"raises {ex}", rp.loc)
+        return
+    got = [("".join(repr(x) if not isinstance(x, str) else x for x in o.s), type(o).__name__) for o in out] if isinstance(out, list) and all(isinstance(o, Str) for o in out) else repr(out)
+    want = [(f"a{a}b{b}c", "CasedStr") for a in ("1", "2") for b in ("x", "<*>", "%p2%")]
+    if got == want:
+        r.ok("C17.R3", rp.qual, "interpreted: a%p1%b%p2%c expands to the full cross product, first placeholder outermost, handed-back placeholder kept in place, string class kept", rp.loc)
+    else:
+        r.violation("C17.R3", rp.qual, f"cross product: a%p1%b%p2%c gives {got}", f"specified {want}: the expansion is not the full cross product with the first placeholder outermost and the recursion over the suffix (placeholders are expanded from left to right)", rp.loc)
+    # the first placeholder is handed back alone (another item's business), the second one is replaced
+    def cb2(p):
+        return iter([p]) if p is p1 else iter(["x", "y"])
+    try:
+        out2 = CasedStr(["a", p1, "b", p2, "c"]).replace_placeholders(cb2)
+        got2 = ["".join(repr(x) if not isinstance(x, str) else x for x in o.s) for o in out2]
+    except Raised as ex:
+        got2 = f"raises {ex}"
+    if got2 == ["a%p1%bxc", "a%p1%byc"]:
+        r.ok("C17.R3", rp.qual, "a handed-back first placeholder does not stop the expansion of the following ones", rp.loc)
+    else:
+        r.violation("C17.R3", rp.qual, f"a%p1%b%p2%c with p1 handed back gives {got2}", "specified ['a%p1%bxc', 'a%p1%byc']: the recursion over the suffix must take place whatever the callback yields for the first placeholder", rp.loc)
+    if isinstance(alone, list) and len(alone) == 1 and alone[0] is plain:
+        r.ok("C17.R3", rp.qual, "a string without placeholders is returned alone and unchanged", rp.loc)
+    else:
+        r.violation("C17.R3", rp.qual, f"string without placeholders gives {alone!r}", "a string without placeholders must be returned alone and unchanged", rp.loc)
+
+
+def _r3_insertion(ctx, ip: FuncInfo) -> None:
+    """SigmaString.insert_placeholders interpreted on the parts ['foo%a%bar\\%x%b%', <*>, '%c%', '', 'plain']: unescaped
+    %name% become placeholders in place, an escaped percent becomes a literal one, special parts are kept, the stale
+    `original` text is not consulted and the receiver is left alone."""
+    from ..tabulate import Raised
+    r = ctx.r
+    Str, CasedStr, Placeholder, sc, env = _string_standin(ctx)
+    parts = ["foo%a%bar\\%x%b%", sc.WILDCARD_MULTI, "%c%", "plain", "50\\%"]
+    src = CasedStr(parts)
+    try:
+        out = src.insert_placeholders()
+        for stale in ("", "no percent here"):  # what `original` holds for strings rebuilt by earlier modifiers
+            src0 = CasedStr(parts)
+            src0.original = stale
+            out0 = src0.insert_placeholders()
+            if not (isinstance(out0, Str) and [type(x) for x in out0.s] == [type(x) for x in out.s]):
+                out = out0
+                break
+    except Raised as ex:
+        r.violation("C17.R3", ip.qual, "insert_placeholders", f"raises {ex}", ip.loc)
+        return
+    got = [("%" + x.name + "%" if isinstance(x, Placeholder) else x) for x in out.s] if isinstance(out, Str) else repr(out)
+    want = ["foo", "%a%", "bar%x", "%b%", sc.WILDCARD_MULTI, "%c%", "plain", "50%"]
+    kinds_ok = isinstance(out, Str) and [isinstance(x, Placeholder) for x in out.s] == [False, True, False, True, False, True, False, False]
+    if got == want and kinds_ok and type(out) is CasedStr:
+        r.ok("C17.R3", ip.qual, "placeholders are inserted by walking the parts (interpreted): unescaped %name% → placeholder in place, \\% → %, special parts kept, `original` not consulted", ip.loc)
+    else:
+        r.violation("C17.R3", ip.qual, f"insert_placeholders on {parts} gives {got}", f"specified {want}: placeholder insertion must work on the parts (self.original is empty/stale for strings rebuilt by earlier modifiers (contains|expand …): %name% stays literal text), walk all of them and keep special parts", ip.loc)
+    if src.s == parts and out is not src and not any(out is x for x in (src,)):
+        r.ok("C17.R3", ip.qual, "the receiver keeps its parts (the result is a new string)", ip.loc)
+    else:
+        r.violation("C17.R3", ip.qual, "insert_placeholders changes the string it is called on", "the given string may be the original value of a detection item that is kept for conversion back into a plain data structure", ip.loc)
 
 
 def _r3_regex_expansion(ctx, rr: FuncInfo) -> None:
